@@ -46,6 +46,49 @@ func C10Fonts() []*Font {
 			cq(pt(R(30*d+1, d), R(150*d+1, 2*d)), pt(R(20*d-1, d), I(100)), pt(R(1, d), R(50*d+1, d)))}}}
 		out = append(out, NewFont(fmt.Sprintf("c10:coordinates over %d", d), notdef(), g))
 	}
+	// 3b. the three curve forms with fractional deltas whose best quotient p/q is
+	// off by almost 1/214 in a known direction, on every subset of the free
+	// deltas: the encoder must measure every delta from the position the decoder
+	// reconstructs, or errors of the same sign add up
+	for form := 0; form < 3; form++ {
+		free := []int{6, 4, 4}[form]
+		for _, f := range []Q{R(23, 5000), R(-23, 5000)} {
+			for mask := 1; mask < 1<<free; mask++ {
+				fr := make([]Q, 6)
+				for k := range fr {
+					fr[k] = I(0)
+					if k < free && mask&(1<<k) != 0 {
+						fr[k] = f
+					}
+				}
+				var d [3][2]Q
+				switch form {
+				case 0:
+					d = [3][2]Q{{I(10).Add(fr[0]), I(20).Add(fr[1])}, {I(20).Add(fr[2]), I(20).Add(fr[3])}, {I(20).Add(fr[4]), I(10).Add(fr[5])}}
+				case 1:
+					d = [3][2]Q{{I(10).Add(fr[0]), I(0)}, {I(20).Add(fr[1]), I(20).Add(fr[2])}, {I(0), I(10).Add(fr[3])}}
+				default:
+					d = [3][2]Q{{I(0), I(10).Add(fr[0])}, {I(20).Add(fr[1]), I(20).Add(fr[2])}, {I(10).Add(fr[3]), I(0)}}
+				}
+				x, y := I(100), I(50)
+				start := pt(x, y)
+				var segs []Seg
+				for rep := 0; rep < 2; rep++ {
+					var p [3]Pt
+					for k := 0; k < 3; k++ {
+						x, y = x.Add(d[k][0]), y.Add(d[k][1])
+						p[k] = pt(x, y)
+					}
+					segs = append(segs, cq(p[0], p[1], p[2]))
+					x, y = x.Add(I(7).Add(f)), y.Add(I(-3).Add(f))
+					segs = append(segs, lq(x, y))
+				}
+				g := NewGlyph("A", 0, 0, 0)
+				g.Contours = []Contour{{start, segs}}
+				out = append(out, NewFont(fmt.Sprintf("c10:curve form %d, fraction %s on deltas %06b", form, f, mask), notdef(), g))
+			}
+		}
+	}
 	// 4. missing .notdef, with and without a space glyph
 	out = append(out, NewFont("c10:no .notdef", NewGlyph("A", 1, 0, 0)))
 	{
